@@ -210,6 +210,33 @@ def fam_foreign(rng, n):
     return out
 
 
+def foreign_stall_sweep(tier):
+    """Fixed programs with one or two foreign submitting threads; each foreign thread in turn is descheduled for a
+    while at its k-th source line inside the buffer code, for every k (the windows between event.clear() and the
+    scheduled put, between submit and wait_from_anywhere, ... held open while the loop goes through a whole cycle)."""
+    out = []
+    tau = 4.0
+    bases = [
+        ([{'at': 0.0, 'op': 'call', 'id': 1, 'x': 1}],
+         [{'name': 'F1', 'start': 1.0, 'prog': [{'op': 'call', 'id': 101, 'x': 101}, {'op': 'wait', 'w': 10, 'cancel': True}]}],
+         {'dur': 0.0, 'fail': []}),
+        ([{'at': 0.0, 'op': 'call', 'id': 1, 'x': 1}, {'at': 3.0, 'op': 'wait', 'w': 1, 'cancel': True}],
+         [{'name': 'F1', 'start': 0.0, 'prog': [{'op': 'call', 'id': 101, 'x': 101}, {'op': 'call', 'id': 102, 'x': 102, 'delay': 1.0},
+                                                {'op': 'wait', 'w': 10, 'cancel': False}]},
+          {'name': 'F2', 'start': 0.5, 'prog': [{'op': 'call', 'id': 201, 'x': 201}, {'op': 'wait', 'w': 20, 'cancel': True}]}],
+         {'dur': 1.0, 'fail': [1]}),
+    ]
+    for prog, foreign, func in bases:
+        for fs in foreign:
+            for k in range(1, 41 if tier == 'quick' else 91):
+                for d in ([tau + 1.0] if tier == 'quick' else [1.0, tau + 1.0, 2 * tau + 1.0]):
+                    out.append({'timeout': tau, 'func': dict(func), 'prog': [dict(it) for it in prog],
+                                'foreign': [dict(f, prog=[dict(it) for it in f['prog']]) for f in foreign],
+                                'strategy': {'kind': 'replay', 'prefix': []}, 'trace': True,
+                                'end': end_time(prog, tau, func, extra=10 * tau + 10), 'stalls': {fs['name']: [k, d]}})
+    return out
+
+
 def fam_foreign_idle(rng, n):
     """C08 with arrivals from another thread while the loop is idle (no line-level tracing needed: the
     interesting quantity is *when* the function is called in virtual time)."""
@@ -287,6 +314,8 @@ def run(ctx):
         go(fam_programs(rng, 1200 if q else 20000, 4, 1, shutdown=True), 'shutdown_instants')
         go(fam_foreign(rng, 500 if q else 12000), 'foreign_threads')
     go(fam_big_bursts(), 'big_bursts')
+    if ctx.prop in ('C03', 'C07'):
+        go(foreign_stall_sweep(ctx.tier), 'foreign_stall_sweep')
     if ctx.prop in ('C03', 'C07'):
         go(fam_model_scope(rng, 300 if q else 5000, shutdown=ctx.prop == 'C07'), 'model_scope_producers')
     if ctx.prop == 'C07':      # make sure some plain-call-plus-wait programs are in the conformance sample
